@@ -79,6 +79,7 @@ pub fn replay(ctx: &mut Ctx, tag: &str, args: &[&str]) {
         "c14n" => c14::case_num(ctx, args[0], args[1]),
         "c15s" => c15::case_set(ctx, args),
         "c16n" => c16::case_new(ctx, args[0]),
+        "c16f" => c16::case_funnels(ctx, args[0], args[1]),
         "c16a" => c16::case_add(ctx, args[0], args[1]),
         "c17" => c17::case(ctx, args[0], args[1]),
         "c18" => c18::case(ctx, args[0]),
